@@ -188,10 +188,11 @@ func vfcMutate(msg []byte, r *rand.Rand) []byte {
 type vfcStream struct {
 	Kind  string
 	Bytes []byte
+	Stall int // > 0: the client pauses after this many bytes for longer than the server's read timeout
 }
 
 // vfcStreams builds the streams of one run: nrand seeded streams plus the directed ones.
-func vfcStreams(r *rand.Rand, h vfrHandles, nrand int, poison, valid bool) []vfcStream {
+func vfcStreams(r *rand.Rand, h vfrHandles, nrand int, poison, valid, stalls bool) []vfcStream {
 	cases := vfrAllCases(r, h, 7, true)
 	xid := uint32(100)
 	call := func(c *vfrCase) []byte {
@@ -207,7 +208,7 @@ func vfcStreams(r *rand.Rand, h vfrHandles, nrand int, poison, valid bool) []vfc
 		for j := i; j < i+4 && j < len(cases); j++ {
 			s = append(s, vfcFrame(call(&cases[j]), r, r.Intn(3) == 0)...)
 		}
-		out = append(out, vfcStream{"valid", s})
+		out = append(out, vfcStream{Kind: "valid", Bytes: s})
 	}
 	for i := 0; i < nrand; i++ {
 		var s []byte
@@ -238,7 +239,7 @@ func vfcStreams(r *rand.Rand, h vfrHandles, nrand int, poison, valid bool) []vfc
 				s[r.Intn(len(s))] ^= 1 << uint(r.Intn(8))
 			}
 		}
-		out = append(out, vfcStream{kind, s})
+		out = append(out, vfcStream{Kind: kind, Bytes: s})
 	}
 	// word edits: for the primary well-formed call of every procedure, every 32-bit word of the arguments
 	// replaced by boundary values (0, 1, 2^31-1, 2^31, 2^32-1, ...), the rest left valid; eight per connection
@@ -252,7 +253,7 @@ func vfcStreams(r *rand.Rand, h vfrHandles, nrand int, poison, valid bool) []vfc
 		nIn := 0
 		flush := func() {
 			if nIn > 0 {
-				out = append(out, vfcStream{"wordedit", s})
+				out = append(out, vfcStream{Kind: "wordedit", Bytes: s})
 				s, nIn = nil, 0
 			}
 		}
@@ -290,14 +291,14 @@ func vfcStreams(r *rand.Rand, h vfrHandles, nrand int, poison, valid bool) []vfc
 		}
 		s = append(s, 0x80, 0, 0, 1, 0)
 		s = append(s, vfcFrame(call(pick()), r, false)...)
-		out = append(out, vfcStream{"accumulated", s})
+		out = append(out, vfcStream{Kind: "accumulated", Bytes: s})
 	}
 	// a full-size record (exactly 1 MiB) that is not a call, then a call that must not be answered
 	{
 		big := make([]byte, vfcMaxRecord)
 		s := vfcFrame(big, r, false)
 		s = append(s, vfcFrame(call(pick()), r, false)...)
-		out = append(out, vfcStream{"fullsize", s})
+		out = append(out, vfcStream{Kind: "fullsize", Bytes: s})
 	}
 	// the largest WRITE the server accepts, valid, followed by a NULL
 	{
@@ -305,20 +306,57 @@ func vfcStreams(r *rand.Rand, h vfrHandles, nrand int, poison, valid bool) []vfc
 		s := vfcFrame(call(&c), r, true)
 		n := vfrCase{Prog: NFS_PROGRAM, Vers: 3, Proc: 0, Cred: vfRoot}
 		s = append(s, vfcFrame(call(&n), r, false)...)
-		out = append(out, vfcStream{"bigwrite", s})
+		out = append(out, vfcStream{Kind: "bigwrite", Bytes: s})
 	}
 	// offsets and counts at the edges of the 64-bit range (READ everywhere; WRITE near 2^63 only when asked:
 	// it is the directed reproducer of F22 and kills a memfs-backed server)
 	for _, off := range []uint64{1<<63 - 10, 1 << 63, ^uint64(0) - 5, 1<<62 + 1} {
 		c := vfrCase{Prog: NFS_PROGRAM, Vers: 3, Proc: NFSPROC3_READ, Args: vfArgsRead(h.file, off, 5), Cred: vfRoot}
-		out = append(out, vfcStream{"edge-read", vfcFrame(call(&c), r, false)})
+		out = append(out, vfcStream{Kind: "edge-read", Bytes: vfcFrame(call(&c), r, false)})
+	}
+	// stalls: the client (or the network) pauses in mid-stream for longer than the read timeout and then
+	// delivers the rest. Whatever the server does (wait, or give the connection up) it must never take bytes
+	// from the middle of a record for a new record. The interesting streams are those whose remainder is
+	// itself well-framed: a call whose trailing argument bytes are framed calls, the pause at that boundary.
+	if stalls {
+		null := func() *vfrCase { return &vfrCase{Prog: NFS_PROGRAM, Vers: 3, Proc: 0, Cred: vfRoot} }
+		getattr := func() *vfrCase {
+			return &vfrCase{Prog: NFS_PROGRAM, Vers: 3, Proc: NFSPROC3_GETATTR, Args: vfArgsFH(h.file), Cred: vfRoot}
+		}
+		embed := func(outer *vfrCase, inner ...*vfrCase) (framed []byte, cut int) {
+			msg := call(outer)
+			cut = 4 + len(msg)
+			for _, in := range inner {
+				msg = append(msg, vfcFrame(call(in), r, false)...)
+			}
+			return vfcFrame(msg, r, false), cut
+		}
+		first := vfcFrame(call(getattr()), r, false)
+		fr, cut := embed(null(), null())
+		out = append(out, vfcStream{"stall", append(append([]byte{}, first...), fr...), len(first) + cut})
+		fr, cut = embed(getattr(), getattr(), null())
+		out = append(out, vfcStream{"stall", fr, cut})
+		lk := &vfrCase{Prog: NFS_PROGRAM, Vers: 3, Proc: NFSPROC3_LOOKUP, Args: vfArgsDirOp(h.root, "f"), Cred: vfRoot}
+		fr, cut = embed(lk, getattr())
+		out = append(out, vfcStream{"stall", append(fr, vfcFrame(call(null()), r, false)...), cut})
+		// inside a fragment header, at a record boundary, and at seeded offsets of ordinary streams
+		two := append(vfcFrame(call(getattr()), r, false), vfcFrame(call(null()), r, false)...)
+		out = append(out, vfcStream{"stall", two, len(vfcFrame(call(getattr()), r, false)) + 2})
+		out = append(out, vfcStream{"stall", append([]byte{}, two...), len(two) - 44})
+		for k := 0; k < 3; k++ {
+			var s []byte
+			for j := 0; j < 3; j++ {
+				s = append(s, vfcFrame(call(pick()), r, r.Intn(2) == 0)...)
+			}
+			out = append(out, vfcStream{"stall", s, 1 + r.Intn(len(s)-1)})
+		}
 	}
 	if poison {
 		c := vfrCase{Prog: NFS_PROGRAM, Vers: 3, Proc: NFSPROC3_WRITE, Args: vfArgsWrite(h.file, 1<<63-10, 2, []byte("12345")), Cred: vfRoot}
 		n := vfrCase{Prog: NFS_PROGRAM, Vers: 3, Proc: 0, Cred: vfRoot}
 		s := vfcFrame(call(&c), r, false)
 		s = append(s, vfcFrame(call(&n), r, false)...)
-		out = append(out, vfcStream{"write-near-2^63", s})
+		out = append(out, vfcStream{Kind: "write-near-2^63", Bytes: s})
 	}
 	return out
 }
@@ -381,6 +419,7 @@ func TestVF_ConnStreamChild(t *testing.T) {
 	from := vfEnvInt("VF_CS_FROM", 0)
 	nrand := vfEnvInt("VF_CS_STREAMS", 100)
 	poison := os.Getenv("VF_CS_POISON") == "1"
+	mode := os.Getenv("VF_CS_MODE")
 	seed := vfSeed()
 
 	var fs absfs.SymlinkFileSystem
@@ -411,7 +450,13 @@ func TestVF_ConnStreamChild(t *testing.T) {
 		vfrPopulate(v)
 		fs = v
 	}
-	e := vfNewEnv(t, fs, ExportOptions{})
+	opts := ExportOptions{}
+	if mode == "ratelimited" { // two calls per connection, then the loop's own refusal (MSG_DENIED) for the rest
+		cfg := DefaultRateLimiterConfig()
+		cfg.PerConnectionRequestsPerSecond, cfg.PerConnectionBurstSize = 1, 2
+		opts.EnableRateLimiting, opts.RateLimitConfig = true, &cfg
+	}
+	e := vfNewEnv(t, fs, opts)
 	lb := &vfcLockedBuf{}
 	e.n.logger = log.New(lb, "", 0)
 	e.srv.logger = log.New(lb, "", 0)
@@ -419,7 +464,34 @@ func TestVF_ConnStreamChild(t *testing.T) {
 	port := vfrListen(t, e)
 	defer e.srv.Stop()
 
-	streams := vfcStreams(vfRand(seed, "cs-"+backend), h, nrand, poison, os.Getenv("VF_CS_VALID") != "0")
+	streams := vfcStreams(vfRand(seed, "cs-"+backend), h, nrand, poison, os.Getenv("VF_CS_VALID") != "0", backend == "vfs" && mode == "")
+	if mode == "ratelimited" { // the valid table only: the third and later calls of each connection exceed the bucket
+		var keep []vfcStream
+		for _, s := range streams {
+			if s.Kind == "valid" {
+				keep = append(keep, s)
+			}
+		}
+		streams = keep
+	}
+	// stalled streams are served by the same connection loop with a read timeout of 200 ms instead of 30 s
+	const stallTimeout = 200 * time.Millisecond
+	stallLn, err := net.Listen("tcp", "127.0.0.1:0")
+	if err != nil {
+		t.Fatalf("listen: %v", err)
+	}
+	defer stallLn.Close()
+	go func() {
+		for {
+			sc, err := stallLn.Accept()
+			if err != nil {
+				return
+			}
+			go e.srv.handleConnectionLoop(sc, &NFSProcedureHandler{server: e.srv},
+				&recordMarkingConnIO{server: e.srv, rmConn: NewRecordMarkingConn(sc, sc)}, stallTimeout, stallTimeout)
+		}
+	}()
+	stallPort := stallLn.Addr().(*net.TCPAddr).Port
 	bystander := vfrDial(t, port)
 	defer func() { bystander.Close() }()
 	for id := from; id < len(streams); id++ {
@@ -435,7 +507,11 @@ func TestVF_ConnStreamChild(t *testing.T) {
 		vfcAppend(tracePath, M{"ev": "begin", "backend": backend, "id": id, "kind": s.Kind, "recs": recs, "nbytes": len(s.Bytes)})
 		lb.Take()
 		a0 := vfcTotalAlloc()
-		c, err := net.DialTimeout("tcp", fmt.Sprintf("127.0.0.1:%d", port), 5*time.Second)
+		dport := port
+		if s.Stall > 0 {
+			dport = stallPort
+		}
+		c, err := net.DialTimeout("tcp", fmt.Sprintf("127.0.0.1:%d", dport), 5*time.Second)
 		if err != nil {
 			t.Fatalf("dial: %v", err)
 		}
@@ -472,15 +548,23 @@ func TestVF_ConnStreamChild(t *testing.T) {
 		// writer: the stream in irregular TCP segments, then FIN
 		rr := vfRand(seed, fmt.Sprintf("cs-w-%d", id))
 		c.SetWriteDeadline(time.Now().Add(8 * time.Second))
+		sent := 0
 		for b := s.Bytes; len(b) > 0; {
 			n := len(b)
 			if rr.Intn(3) == 0 {
 				n = 1 + rr.Intn(len(b))
 			}
+			if s.Stall > 0 && sent < s.Stall && sent+n >= s.Stall {
+				n = s.Stall - sent
+			}
 			if _, err := c.Write(b[:n]); err != nil {
 				break // the server may already have closed
 			}
 			b = b[n:]
+			if sent += n; sent == s.Stall {
+				time.Sleep(stallTimeout + 300*time.Millisecond)
+				c.SetWriteDeadline(time.Now().Add(8 * time.Second))
+			}
 		}
 		if tc, ok := c.(*net.TCPConn); ok {
 			tc.CloseWrite()
@@ -532,15 +616,19 @@ func TestVF_ConnStream(t *testing.T) {
 	for _, run := range []struct {
 		backend string
 		poison  bool
-	}{{"vfs", true}, {"memfs", false}, {"memfs", true}} {
+		mode    string
+	}{{"vfs", true, ""}, {"vfs", false, "ratelimited"}, {"memfs", false, ""}, {"memfs", true, ""}} {
 		label := run.backend
 		if run.poison && run.backend == "memfs" {
 			label = "memfs-directed"
 		}
+		if run.mode != "" {
+			label = run.backend + "-" + run.mode
+		}
 		tr.Emit(M{"ev": "reset", "backend": run.backend, "label": label})
 		from, crashes, conns, nontrivial := 0, 0, 0, 0
 		n := nrand
-		if label == "memfs-directed" {
+		if label == "memfs-directed" || run.mode != "" {
 			n = 0
 		}
 		for attempt := 0; attempt < 6; attempt++ {
@@ -549,7 +637,7 @@ func TestVF_ConnStream(t *testing.T) {
 			cmd := exec.Command(os.Args[0], "-test.run", "^TestVF_ConnStreamChild$", "-test.count=1", "-test.timeout", "600s")
 			cmd.Env = append(os.Environ(), "VF_CS_BACKEND="+run.backend, "VF_CS_TRACE="+path, fmt.Sprintf("VF_CS_FROM=%d", from),
 				fmt.Sprintf("VF_CS_STREAMS=%d", n), "VF_CS_POISON="+map[bool]string{true: "1", false: "0"}[run.poison],
-				"VF_CS_VALID="+map[bool]string{true: "0", false: "1"}[label == "memfs-directed"])
+				"VF_CS_VALID="+map[bool]string{true: "0", false: "1"}[label == "memfs-directed"], "VF_CS_MODE="+run.mode)
 			var stderr bytes.Buffer
 			cmd.Stdout, cmd.Stderr = &stderr, &stderr
 			err := cmd.Run()
